@@ -20,9 +20,9 @@ PROPS = {
     "C06": dict(level="exploration", quick=24000, thorough_s=600, vq=["asan"], vt=["asan", "asan-vblas", "asan-i64"], chunk=25),
     "C07": dict(level="exploration", quick=8000, thorough_s=600, vq=["asan"], vt=["asan", "asan-vblas", "asan-i64"], chunk=20),
     "C08": dict(level="fault_enumeration", quick=320, thorough_s=900, vq=["asan"], vt=["asan", "asan-vblas", "asan-i64"], chunk=2),
-    "C09": dict(level="exploration", quick=10000, thorough_s=900, vq=["tsan", "asan"], vt=["tsan", "asan", "tsan-i64", "asan-vblas"], chunk=20),
+    "C09": dict(level="exploration", quick=10000, thorough_s=900, vq=["tsan", "asan"], vt=["tsan", "asan", "tsan-i64", "asan-vblas"], chunk=5),
     "C19": dict(level="exploration", quick=24000, thorough_s=900, vq=["asan"], vt=["asan", "asan-vblas", "asan-i64"], chunk=25),
-    "C20": dict(level="exploration", quick=10000, thorough_s=600, vq=["asan", "tsan"], vt=["asan", "tsan", "asan-i64"], chunk=25),
+    "C20": dict(level="exploration", quick=10000, thorough_s=600, vq=["asan", "tsan"], vt=["asan", "tsan", "asan-i64"], chunk=10),
 }
 PROP_NUM = {"C06": 6, "C07": 7, "C08": 8, "C09": 9, "C19": 19, "C20": 20}
 
@@ -129,20 +129,32 @@ class Worker(threading.Thread):
             if ctx.twice:
                 cmd.append("--twice")
             p = subprocess.Popen(cmd, stdout=subprocess.PIPE, stderr=subprocess.PIPE, text=True, cwd=VERIF)
+            proc_from = idx
             errbuf = []
             t = threading.Thread(target=lambda: errbuf.append(p.stderr.read()), daemon=True)
             t.start()
             started = None
             xline = None
             done_idx = idx - 1
+            progress = [time.time()]
+
+            def watchdog(proc=p, progress=progress):
+                # a worker that prints nothing for 2 minutes is stuck (a single run is bounded by its step budget): kill it
+                while proc.poll() is None:
+                    time.sleep(2)
+                    if time.time() - progress[0] > 120:
+                        proc.kill()
+                        return
+            threading.Thread(target=watchdog, daemon=True).start()
             for line in p.stdout:
+                progress[0] = time.time()
                 if line.startswith("S "):
                     started = int(line.split()[1])
                 elif line.startswith("R "):
                     _, i, js = line.split(" ", 2)
                     done_idx = int(i)
                     try:
-                        ctx.on_result(variant, int(i), json.loads(js))
+                        ctx.on_result(variant, int(i), json.loads(js), proc_from)
                     except Exception as e:  # malformed line = machinery failure
                         ctx.machinery_error("bad result line from worker: %r (%s)" % (line[:200], e))
                 elif line.startswith("D "):
@@ -158,7 +170,7 @@ class Worker(threading.Thread):
             t.join()
             if started is not None and started > done_idx:
                 # the worker died inside run `started`
-                ctx.on_death(variant, started, p.returncode, (errbuf[0] if errbuf else "") + ("\n" + xline if xline else ""))
+                ctx.on_death(variant, started, p.returncode, (errbuf[0] if errbuf else "") + ("\n" + xline if xline else ""), proc_from)
                 idx = started + 1
             else:
                 idx = done_idx + 1
@@ -175,13 +187,13 @@ class Ctx:
     pass
 
 
-def run_replay(exe, path, timeout=120, twice=False):
+def run_replay(exe, path, timeout=60, twice=False):
     """Replay a case file in a fresh process. Returns (set of violation keys, detail map, rc, stderr)."""
     cmd = [exe, "--replay", path] + (["--twice"] if twice else [])
     try:
         p = subprocess.run(cmd, stdout=subprocess.PIPE, stderr=subprocess.PIPE, text=True, timeout=timeout, cwd=VERIF)
     except subprocess.TimeoutExpired:
-        return {"TIMEOUT"}, {}, -9, ""
+        return {"TIMEOUT"}, {"TIMEOUT": "replay did not finish within %ds" % timeout}, -9, ""
     keys = {}
     for line in p.stdout.splitlines():
         if line.startswith("R "):
@@ -193,6 +205,28 @@ def run_replay(exe, path, timeout=120, twice=False):
     if p.returncode not in (0, 1):
         keys.setdefault(crash_key(p.stderr, p.stdout, p.returncode), p.stderr[-3000:] or p.stdout[-500:])
     return set(keys), keys, p.returncode, p.stderr
+
+
+def run_history(exe, prop, seed, start, idx, thorough, tmpdir):
+    """Re-run runs start..idx in ONE fresh process; return the violation keys of run idx (incl. a crash inside it)."""
+    cmd = [exe, prop, "--seed", str(seed), "--from", str(start), "--count", str(idx - start + 1), "--outdir", tmpdir] + (["--thorough"] if thorough else [])
+    try:
+        p = subprocess.run(cmd, stdout=subprocess.PIPE, stderr=subprocess.PIPE, text=True, timeout=600, cwd=VERIF)
+    except subprocess.TimeoutExpired:
+        return set()
+    keys = set(); started = None; done = None
+    for line in p.stdout.splitlines():
+        if line.startswith("S "):
+            started = int(line.split()[1])
+        elif line.startswith("R "):
+            _, i, js = line.split(" ", 2)
+            done = int(i)
+            if done == idx:
+                for v in json.loads(js).get("violations", []):
+                    keys.add(v["key"])
+    if p.returncode not in (0, 1) and started == idx and done != idx:
+        keys.add(crash_key(p.stderr, p.stdout, p.returncode))
+    return keys
 
 
 def load_known():
@@ -237,6 +271,25 @@ def main():
     for v in variants:
         exes[v] = B.build_variant(v)
 
+    if args.replay and json.load(open(args.replay)).get("history_replay"):
+        hcase = json.load(open(args.replay))
+        v = hcase.get("variant") or variants[0]
+        if v not in exes:
+            exes[v] = B.build_variant(v)
+        tmpd = os.path.join(VERIF, "replays", "tmp", "hist-%d" % os.getpid()); os.makedirs(tmpd, exist_ok=True)
+        ks = run_history(exes[v], hcase["property"], hcase["seed"], hcase["from"], hcase["to"], hcase.get("thorough", False), tmpd)
+        shutil.rmtree(tmpd, ignore_errors=True)
+        known = load_known(); bad = 0
+        for k in sorted(ks):
+            f = match_known(known, prop, k)
+            if f:
+                print("KNOWN-FINDING: property=%s %s" % (prop, f["what"]))
+            else:
+                bad += 1
+                print("VIOLATION property=%s replay=%s" % (prop, args.replay)); print("  class: %s" % k)
+        if not ks:
+            print("replay: no violation")
+        return 1 if bad else 0
     if args.replay:
         c = json.load(open(args.replay))
         v = c.get("variant") or variants[0]
@@ -271,7 +324,7 @@ def main():
     ctx.deadline = None
     ctx.hash_by_run = {}
 
-    def on_result(variant, idx, js):
+    def on_result(variant, idx, js, proc_from=None):
         with ctx.lock:
             ctx.results += 1
             ctx.per_variant[variant] = ctx.per_variant.get(variant, 0) + 1
@@ -286,11 +339,13 @@ def main():
             if "sample" in js and len(ctx.samples) < 6 and (js.get("nontrivial") or len(ctx.samples) < 2):
                 s = dict(js["sample"]); s["run"] = idx; s["variant"] = variant
                 ctx.samples.append(s)
+            if sum(ctx.cand_keys.values()) > 150:
+                ctx.stop.set()   # plenty of evidence already: stop the sweep and go on to confirm / minimise
             for v in js.get("violations", []):
                 n = ctx.cand_keys.get(v["key"], 0)
                 ctx.cand_keys[v["key"]] = n + 1
                 if n < 3:
-                    ctx.candidates.append((variant, idx, v["key"], v["detail"], js.get("case")))
+                    ctx.candidates.append((variant, idx, v["key"], v["detail"], js.get("case"), proc_from))
     ctx.on_result = on_result
 
     def on_cov(variant, hit, tot):
@@ -299,14 +354,16 @@ def main():
             ctx.cov[variant] = (max(h, hit), tot)
     ctx.on_cov = on_cov
 
-    def on_death(variant, idx, rc, err):
+    def on_death(variant, idx, rc, err, proc_from=None):
         key = crash_key(err, err, rc)
         with ctx.lock:
             ctx.results += 1
+            if sum(ctx.cand_keys.values()) > 150:
+                ctx.stop.set()
             n = ctx.cand_keys.get(key, 0)
             ctx.cand_keys[key] = n + 1
             if n < 3:
-                ctx.candidates.append((variant, idx, key, err[-3000:], None))
+                ctx.candidates.append((variant, idx, key, err[-3000:], None, proc_from))
     ctx.on_death = on_death
 
     def machinery_error(msg):
@@ -350,7 +407,8 @@ def main():
     known_hits = {}
     seen_keys = set()
     os.makedirs(os.path.join(VERIF, "replays"), exist_ok=True)
-    for (variant, idx, key, detail, casepath) in ctx.candidates:
+    unreproducible = []
+    for (variant, idx, key, detail, casepath, proc_from) in ctx.candidates:
         if key in seen_keys:
             continue
         exe = exes[variant]
@@ -358,7 +416,10 @@ def main():
             # crash: regenerate the case with the in-flight recorder
             casepath = os.path.join(ctx.tmpdir, "inflight-%s-%d.json" % (variant, idx))
             cmd = [exe, prop, "--seed", str(args.seed), "--from", str(idx), "--count", "1", "--inflight", casepath] + (["--thorough"] if thorough else [])
-            subprocess.run(cmd, stdout=subprocess.PIPE, stderr=subprocess.PIPE, cwd=VERIF)
+            try:
+                subprocess.run(cmd, stdout=subprocess.PIPE, stderr=subprocess.PIPE, cwd=VERIF, timeout=180)
+            except subprocess.TimeoutExpired:
+                pass  # (seen: ThreadSanitizer's runtime can dead-lock while printing a report) - the in-flight file is written before the run starts
             if not os.path.exists(casepath):
                 log("MACHINERY ERROR: could not capture the case of crashed run %d" % idx)
                 return 2
@@ -381,13 +442,40 @@ def main():
                 seen_keys.add(key)
                 continue
         if key not in k1 or key not in k2:
-            if k1 != k2 or not k1:
-                log("MACHINERY ERROR: candidate %s of run %d does not reproduce on replay (%s / %s)" % (key, idx, sorted(k1), sorted(k2)))
-                shutil.copy(casepath, os.path.join(VERIF, "replays", "unreproducible-%s-%d.json" % (prop, idx)))
-                return 2
+            if k1 != k2 or not k1 or "TIMEOUT" in k1:
+                # Not reproducible from the case alone.  The case is a pure function of (seed, run), so the only thing a fresh
+                # process lacks is what the same worker process did BEFORE this run: state the library carried from earlier,
+                # unrelated calls.  Replay the process history (seed, first run of that process .. this run) twice.
+                hist = None
+                if proc_from is not None and proc_from < idx:
+                    kh1 = run_history(exe, prop, args.seed, proc_from, idx, thorough, ctx.tmpdir)
+                    kh2 = run_history(exe, prop, args.seed, proc_from, idx, thorough, ctx.tmpdir)
+                    if key in kh1 and key in kh2:
+                        start = proc_from
+                        for back in (1, 2, 4, 8, 16, 32):   # shorten the history
+                            if idx - back <= proc_from:
+                                break
+                            if key in run_history(exe, prop, args.seed, idx - back, idx, thorough, ctx.tmpdir):
+                                start = idx - back
+                                break
+                        hist = {"history_replay": True, "property": prop, "seed": args.seed, "from": start, "to": idx, "variant": variant,
+                                "thorough": thorough, "key": key,
+                                "note": "the violation of run %d only shows when runs %d..%d were executed before it in the same process: the library carries state from earlier, unrelated calls" % (idx, start, idx - 1)}
+                if hist is None:
+                    unreproducible.append((key, idx, sorted(k1), sorted(k2), casepath))
+                    continue
+                seen_keys.add(key)
+                if match_known(known, prop, key):
+                    known_hits[match_known(known, prop, key)["id"]] = match_known(known, prop, key)
+                    continue
+                final = os.path.join(VERIF, "replays", "%s-%d-%d-%s-history.json" % (prop, args.seed, idx, hashlib.sha1(key.encode()).hexdigest()[:6]))
+                json.dump(hist, open(final, "w"), indent=1)
+                if len(reported) < args.max_candidates:
+                    reported.append((key, final, detail + "\n" + hist["note"]))
+                continue
             # reproducible but classified differently (e.g. first of several violations): adopt replay's classes
             key = sorted(k1)[0]
-            detail = d1[key]
+            detail = d1.get(key, detail)
             if key in seen_keys:
                 continue
         seen_keys.add(key)
@@ -401,7 +489,7 @@ def main():
         shutil.copy(casepath, final)
         if not args.no_minimise:
             try:
-                M.minimise(exe, final, key, run_replay, budget_s=90, log=log)
+                M.minimise(exe, final, key, run_replay, budget_s=60, log=log)
             except Exception as e:  # minimisation is best effort; the unminimised replay stays valid
                 log("minimiser failed: %r" % (e,))
         k3, d3, rc3, e3 = run_replay(exe, final)
@@ -410,6 +498,13 @@ def main():
             shutil.copy(casepath, final)
         reported.append((key, final, (d3.get(key) or detail)))
 
+    if unreproducible and not reported:
+        for (key, idx, a, b, casepath) in unreproducible[:5]:
+            log("MACHINERY ERROR: candidate %s of run %d reproduces neither from its case nor from its process history (%s / %s)" % (key, idx, a, b))
+            shutil.copy(casepath, os.path.join(VERIF, "replays", "unreproducible-%s-%d.json" % (prop, idx)))
+        return 2
+    for (key, idx, a, b, casepath) in unreproducible[:5]:
+        log("note: candidate %s of run %d did not reproduce on replay (other violations of this run were confirmed)" % (key, idx))
     # ---- probe the recorded findings of this property: each one that still reproduces is printed as KNOWN-FINDING ----
     for kf in known.get("findings", []):
         if prop not in kf.get("properties", [kf.get("property")]) or kf["id"] in known_hits:
